@@ -24,7 +24,7 @@ CONFIG = dict(
     audit="Audit/C15.lean",
     required_theorems=["shipped_source_facts", "shipped_sound", "shipped_scheduler_correct", "post_exactly_once", "per_poster_fifo", "panic_does_not_block_later",
                        "post_after_stop_is_harmless", "overflow_path_breaks_fifo", "tasks_in_order", "args_threaded",
-                       "error_jumps_to_final", "final_at_most_once", "final_exactly_once", "everything_via_post", "anonymous_service_gets_own_scheduler", "same_name_same_scheduler"],
+                       "error_jumps_to_final", "final_at_most_once", "final_exactly_once", "everything_via_post", "anonymous_service_gets_own_scheduler", "same_name_same_scheduler", "name_reused_after_stop_gets_fresh_scheduler"],
     harness_pkg="./c15",
     mode="accept",
     reset_prefix="reset",
@@ -51,8 +51,9 @@ CONFIG = dict(
          "later via goroutine, caller, timer or a posted closure / never / twice / panicking before or after completing, several chains interleaved, "
          "chains started from the test goroutine / a foreign goroutine / a closure on the consumer, with the consumer idle or parked behind "
          "0/3/997/998/999 queued closures (the starter then blocks in Post on the full channel), each task checked for a usable callback, "
-         "completions after Stop; events compared one by one with the model. Multi-service cases: 1-6 anonymous run services "
-         "(NewRunService(\"\")) alive at once, numbered and panicking closures and waterfall chains posted to each, services stopped and created in "
+         "completions after Stop; events compared one by one with the model. Multi-service cases: up to 8 run services, anonymous "
+         "(NewRunService(\"\")) or with explicit names that are reused after a stop (stop without start, stop while the loop is parked in a "
+         "closure followed by an immediate re-creation under the same name, late start with closures queued), alive at once, numbered and panicking closures and waterfall chains posted to each, services stopped and created in "
          "any order (created-after-stop included); every closure must run on its own service's loop goroutine. Re-entrant posts: the consumer, parked in a closure, posts 2-8 closures to its own "
          "queue at fill 0..cap-2 (within the free slots) and is then one more poster. Failing tasks pass no / one nil / several result values. "
          "Registry race (real time, outside the bubble): 2-4 goroutines call Mgr.GetSche with one fresh name while the harness holds the "
